@@ -34,7 +34,7 @@ package key
 //@   ensures [same-blob] err == nil ==> certid(result0) == blobid(key)
 //@   ensures !certBlob(blobid(key)) ==> err != nil
 //@   ensures [other-keys-are-reparsed-from-their-blob] typeof(key) != *ssh.Certificate ==> ((err == nil <==> (certBlob(blobid(key)) && parseOKid(blobid(key)))) &&
-//@     (err == nil ==> (result0.KeyId == certKeyId(blobid(key)) && result0.ValidAfter == certVA(blobid(key)) && result0.ValidBefore == certVB(blobid(key)))))
+//@     (err == nil ==> (result0.KeyId == certKeyId(blobid(key)) && result0.ValidAfter == certVA(blobid(key)) && result0.ValidBefore == certVB(blobid(key)) && blobid(result0.Key) == certPub(blobid(key)))))
 //@   ensures [cast-is-a-function-of-the-key] (err == nil <==> castable(key)) && (err == nil ==> result0.KeyId == keyIdOfKey(key))
 //@   ensures [certificate-objects-are-handed-back] (typeof(key) == *ssh.Certificate && certBlob(blobid(key))) ==> (err == nil && result0 == key.(*ssh.Certificate))
 //@ # blob identity of a *ssh.Certificate (as a PublicKey)
